@@ -377,7 +377,54 @@ func (j job) String() string {
 	return fmt.Sprintf("%s client-simple=%v service-simple=%v pool=%v debug=%v missing-handler=%v", j.Transport, j.CSimple, j.SSimple, j.Pool, j.Debug, !j.NoMissing)
 }
 
-var modes = []string{"proxy", "proxy-no-error-result", "invoke-typed", "invoke-untyped"}
+var modes = []string{"proxy", "proxy-no-error-result", "invoke-typed", "invoke-untyped",
+	"proxy-nested", "proxy-embedded", "proxy-embedded-in-nested", "proxy-pointer-nested"}
+
+// shaped reports whether mode is one of the proxies whose names come from their shape; they exist for the
+// members of the "am" service under their exact names only.
+func shaped(mode string) bool {
+	return strings.HasPrefix(mode, "proxy-") && mode != "proxy-no-error-result"
+}
+
+// shapedProxyFunc returns the function field for f in the proxy of the given shape.
+func (e *env) shapedProxyFunc(f *fnSpec, mode string) reflect.Value {
+	pv, ok := e.proxies["shaped|"+mode]
+	if !ok {
+		switch mode {
+		case "proxy-nested":
+			p := &proxyNested{}
+			e.client.UseService(p)
+			pv = reflect.ValueOf(p)
+		case "proxy-embedded":
+			p := &proxyEmbedded{}
+			e.client.UseService(p, "am")
+			pv = reflect.ValueOf(p)
+		case "proxy-embedded-in-nested":
+			p := &proxyEmbeddedInNested{}
+			e.client.UseService(p)
+			pv = reflect.ValueOf(p)
+		case "proxy-pointer-nested":
+			p := &proxyPointerNested{}
+			e.client.UseService(p)
+			pv = reflect.ValueOf(p)
+		}
+		e.proxies["shaped|"+mode] = pv
+	}
+	v := pv.Elem()
+	if am := v.FieldByName("Am"); am.IsValid() {
+		v = am
+		if v.Kind() == reflect.Ptr {
+			v = v.Elem()
+		}
+	}
+	for _, part := range strings.Split(f.Base, "_") {
+		v = v.FieldByName(part)
+		if v.Kind() == reflect.Ptr {
+			v = v.Elem()
+		}
+	}
+	return v
+}
 
 type viol struct {
 	Job      job    `json:"job"`
@@ -533,9 +580,14 @@ func (e *env) remote(f *fnSpec, args []reflect.Value, spelling, mode string) (o 
 		resT = []reflect.Type{tStr, tArgs}
 	}
 	switch mode {
-	case "proxy", "proxy-no-error-result":
-		withErr := mode == "proxy"
-		pf := e.proxyFunc(f, spelling, withErr)
+	case "proxy", "proxy-no-error-result", "proxy-nested", "proxy-embedded", "proxy-embedded-in-nested", "proxy-pointer-nested":
+		withErr := mode != "proxy-no-error-result"
+		var pf reflect.Value
+		if shaped(mode) {
+			pf = e.shapedProxyFunc(f, mode)
+		} else {
+			pf = e.proxyFunc(f, spelling, withErr)
+		}
 		in := args
 		if f.Ctx {
 			in = append([]reflect.Value{reflect.ValueOf(context.Background())}, args...)
@@ -843,6 +895,9 @@ func runJob(j job, thorough bool) (res result) {
 					continue // the second service only exists for the unknown-name cells
 				}
 				for _, mode := range modes {
+					if shaped(mode) && (f.NS != "am" || sp != "exact") {
+						continue // the shaped proxies exist for the members of the am service under their exact names
+					}
 					skip := ""
 					switch {
 					case !resultOK && sp != "unknown":
